@@ -37,6 +37,41 @@ def class_items(node) -> Optional[set[str]]:
     return None
 
 
+def containment_rules(eng: Engine, ck: Check, rule: str):
+    """'is inside' between shared directories is decided on path components (shared by C07: items are indexed under the innermost
+    directory, and C08: the share mode that gates a file is the one of the directory it is filed under)."""
+    # ---- R-C07-CONTAIN: path containment is by path components
+    for qn in ('SharedDirectory.is_parent_of', 'SharedDirectory.is_child_of', 'SharedDirectory.get_items_for_directory'):
+        f = eng.func(SMODEL, qn)
+        ck.visited(f)
+        sw = [x for x in calls_in(f.node) if call_name(x) in ('startswith', 'endswith', 'find', 'index') or
+              (isinstance(x, ast.Call) and False)]
+        ins = [n for n in walk_with_lambdas(f.node) if isinstance(n, ast.Compare) and isinstance(n.ops[0], (ast.In, ast.NotIn)) and 'path' in unparse(n)]
+        cp = [x for x in calls_in(f.node) if unparse(x.func) in ('os.path.commonpath',) or call_name(x) in ('is_relative_to',)]
+        ck.ob(rule, f, f.node, f'{qn}: "is inside" is decided on path components (os.path.commonpath / is_relative_to), never on a string prefix', bool(cp) and not sw and not ins,
+              f'string test `{unparse((sw + ins)[0])}`: /music/Rock is a string prefix of "/music/Rock Classics" without containing it' if (sw or ins) else 'no component-wise test found',
+              construct=f'{qn} component-wise')
+        for x in cp:
+            cmpn = parent(x)
+            ok = isinstance(cmpn, ast.Compare) and isinstance(cmpn.ops[0], ast.Eq)
+            if ok and unparse(x.func) == 'os.path.commonpath':
+                elts = [unparse(e) for e in x.args[0].elts] if isinstance(x.args[0], ast.List) else []
+                other = unparse(cmpn.comparators[0])
+                ok = other in elts
+                prm = [p_ for p_ in f.params if p_ != 'self'][0]
+                arg_side = [e_ for e_ in elts if e_ != 'self.absolute_path']
+                if qn.endswith('is_parent_of'):
+                    base = 'self.absolute_path'
+                elif qn.endswith('is_child_of'):
+                    # the would-be ancestor is the argument's path (a local derived from the parameter)
+                    base = arg_side[0] if len(arg_side) == 1 and mentions_name(expand_aliases(f, ast.parse(arg_side[0], mode='eval').body), prm) else '?'
+                else:
+                    base = f'{prm}.absolute_path'
+                ok = ok and other == base and len(elts) == 2
+            ck.ob(rule, f, x, f'{qn}: commonpath([a, b]) == the would-be ancestor', ok, unparse(cmpn)[:90], construct=f'{qn} compares with ancestor')
+
+
+
 def run(eng: Engine, ck: Check):
     repo = eng.repo
     q = eng.func(SHARES, 'SharesManager.query')
@@ -238,35 +273,7 @@ def run(eng: Engine, ck: Check):
         capn = c.nodes_for(caps[0].test)
         ck.ob('R-C07-MATCHERS', q, q.node, 'cap precedes the visible/locked split', bool(split_nodes) and all(capn[0].id < s.id for s in split_nodes), '', construct='cap before split')
 
-    # ---- R-C07-CONTAIN: path containment is by path components
-    for qn in ('SharedDirectory.is_parent_of', 'SharedDirectory.is_child_of', 'SharedDirectory.get_items_for_directory'):
-        f = eng.func(SMODEL, qn)
-        ck.visited(f)
-        sw = [x for x in calls_in(f.node) if call_name(x) in ('startswith', 'endswith', 'find', 'index') or
-              (isinstance(x, ast.Call) and False)]
-        ins = [n for n in walk_with_lambdas(f.node) if isinstance(n, ast.Compare) and isinstance(n.ops[0], (ast.In, ast.NotIn)) and 'path' in unparse(n)]
-        cp = [x for x in calls_in(f.node) if unparse(x.func) in ('os.path.commonpath',) or call_name(x) in ('is_relative_to',)]
-        ck.ob('R-C07-CONTAIN', f, f.node, f'{qn}: "is inside" is decided on path components (os.path.commonpath / is_relative_to), never on a string prefix', bool(cp) and not sw and not ins,
-              f'string test `{unparse((sw + ins)[0])}`: /music/Rock is a string prefix of "/music/Rock Classics" without containing it' if (sw or ins) else 'no component-wise test found',
-              construct=f'{qn} component-wise')
-        for x in cp:
-            cmpn = parent(x)
-            ok = isinstance(cmpn, ast.Compare) and isinstance(cmpn.ops[0], ast.Eq)
-            if ok and unparse(x.func) == 'os.path.commonpath':
-                elts = [unparse(e) for e in x.args[0].elts] if isinstance(x.args[0], ast.List) else []
-                other = unparse(cmpn.comparators[0])
-                ok = other in elts
-                prm = [p_ for p_ in f.params if p_ != 'self'][0]
-                arg_side = [e_ for e_ in elts if e_ != 'self.absolute_path']
-                if qn.endswith('is_parent_of'):
-                    base = 'self.absolute_path'
-                elif qn.endswith('is_child_of'):
-                    # the would-be ancestor is the argument's path (a local derived from the parameter)
-                    base = arg_side[0] if len(arg_side) == 1 and mentions_name(expand_aliases(f, ast.parse(arg_side[0], mode='eval').body), prm) else '?'
-                else:
-                    base = f'{prm}.absolute_path'
-                ok = ok and other == base and len(elts) == 2
-            ck.ob('R-C07-CONTAIN', f, x, f'{qn}: commonpath([a, b]) == the would-be ancestor', ok, unparse(cmpn)[:90], construct=f'{qn} compares with ancestor')
+    containment_rules(eng, ck, 'R-C07-CONTAIN')
 
     # ---- R-C07-INDEX
     sm = eng.cls('SharesManager', SHARES)
@@ -281,7 +288,32 @@ def run(eng: Engine, ck: Check):
                 grow.append((f, n, unparse(n.targets[0].value), n.value))
             if isinstance(n, ast.Call) and isinstance(n.func, ast.Attribute) and n.func.attr in ('update', 'add') and isinstance(n.func.value, ast.Attribute) and n.func.value.attr == 'items':
                 grow.append((f, n, unparse(n.func.value.value), n.args[0] if n.args else None))
-    ck.floor('R-C07-INDEX', len(grow), 4)
+    ck.floor('R-C07-INDEX', len(grow), 3)
+    # a member of a SET must not change a field its hash is computed from while it sits in the set: `item.shared_directory = d` for the
+    # items of `d.items` (the cache stores items without their directory) is followed by filing the items in a NEW set -- otherwise every
+    # item stays under the hash of (None, ..) and `items -= ..` / `in` no longer find it
+    hashed = {'shared_directory', 'subdir', 'filename', 'modified'}
+    n_rehash = 0
+    for f in repo.all_funcs():
+        if f.module.rel not in (SHARES, 'shares/cache.py', SMODEL):
+            continue
+        for lp in [n for n in walk_local(f.node) if isinstance(n, ast.For) and isinstance(n.iter, ast.Attribute) and n.iter.attr == 'items' and isinstance(n.target, ast.Name)]:
+            stores = [n for n in walk_local(lp) if isinstance(n, ast.Assign) and any(isinstance(t, ast.Attribute) and t.attr in hashed and unparse(t.value) == lp.target.id for t in n.targets)]
+            if not stores:
+                continue
+            n_rehash += 1
+            owner = unparse(lp.iter.value)
+            cf_ = eng.cfg(f)
+            rebinds = [n for n in walk_local(f.node) if isinstance(n, ast.Assign) and any(unparse(t) == f'{owner}.items' for t in n.targets) and not mentions_attr(n.value, 'items')]
+            rn_ = [x for n in rebinds for x in cf_.nodes_for(n)]
+            starts_ = [s_ for x in cf_.nodes_for(lp) for s_, lab in x.succ]
+            # every normal path from the loop to the function's return passes a re-binding of the set
+            pth = cf_.find_path(cf_.nodes_for(lp), lambda x: x.kind == 'exit_return', avoid=lambda x: x in rn_, edge_ok=lambda a, b, lab: lab not in ('exc', 'cancel'))
+            ck.ob('R-C07-INDEX', f, stores[0], f'{f.name}: `{unparse(stores[0])[:50]}` changes a field the item\'s hash is computed from while the item sits in the set '
+                  f'`{owner}.items`; the items are filed in a new set afterwards', bool(rebinds) and pth is None,
+                  f'`{owner}.items` is not re-built: every item stays filed under its old hash; `parent.items -= children`, `item in items` and set reconciliation after '
+                  'a scan silently miss it (the same file is indexed twice after a nested directory is added)', construct=f'{f.qualname} rehashes {owner}.items')
+    ck.floor('R-C07-INDEX.rehash', n_rehash, 1)
     for f, n, owner, val in grow:
         ck.visited(f)
         # items whose back-pointer is provably `owner`: re-pointed in this function, or built by a helper that constructs SharedItem(owner, ..)
